@@ -77,7 +77,7 @@ var opName = map[string]int{
 }
 
 var (
-	nilValue   = reflect.New(reflect.TypeOf((*interface{})(nil)).Elem()).Elem()
+	nilValue   = reflect.Zero(reflect.TypeOf((*interface{})(nil)).Elem())
 	trueValue  = reflect.ValueOf(true)
 	falseValue = reflect.ValueOf(false)
 	oneLiteral = &ast.LiteralExpr{Literal: reflect.ValueOf(int64(1))}
